@@ -71,15 +71,18 @@ Definition conn_tokens (c : bytes) : list bytes :=
   filter (fun f => negb (is_nil f)) (map trim_space (split COMMA c)).
 
 (* ---- createUpstreamRequest (header part) ---- *)
-(* only the FIRST Connection value is consulted (Header.Get) *)
-Definition strip_conn_listed (h : hdr) : hdr :=
-  fold_left hdel (conn_tokens (hget h K_CONNECTION)) h.
+(* every Connection value is consulted (range over Header["Connection"]; the slice is evaluated
+   once, so deleting "Connection" itself on the way does not cut the iteration short) *)
+Definition conn_values (h : hdr) : list bytes :=
+  match hlookup h K_CONNECTION with Some vs => vs | None => [] end.
+Definition req_conn_tokens (h : hdr) : list bytes := flat_map conn_tokens (conn_values h).
+Definition strip_conn_listed (h : hdr) : hdr := fold_left hdel (req_conn_tokens h) h.
 (* a hop-by-hop header is deleted only when its first value is non-empty (Header.Get != "") *)
 Definition strip_hop_req (h : hdr) : hdr :=
   fold_left (fun h k => if is_nil (hget h k) then h else hdel h k) gen_hop_headers h.
 (* was the header map copied (true) or does outreq.Header alias r.Header (false)? *)
 Definition req_copied (h : hdr) : bool :=
-  negb (is_nil (conn_tokens (hget h K_CONNECTION))) ||
+  negb (is_nil (req_conn_tokens h)) ||
   existsb (fun k => negb (is_nil (hget (strip_conn_listed h) k))) gen_hop_headers.
 Definition COMMA_SP : bytes := [44; 32].
 Definition add_xff (remote : bytes) (h : hdr) : hdr :=
